@@ -416,9 +416,18 @@ impl TransformerContext {
     pub fn update_element(&mut self, el: &SvgElement) {
         if let Some(id) = el.get_attr("id") {
             let id = eval_attr(&id, self).unwrap_or(id);
-            if self.elem_map.insert(id.clone(), el.clone()).is_none() {
-                self.original_map.insert(id, el.clone());
-            }
+            self.elem_map.insert(id.clone(), el.clone());
+            self.original_map.entry(id).or_insert_with(|| el.clone());
+        }
+    }
+
+    /// Record the as-written form of an element (the template used by `reuse`)
+    /// without making it available for geometry references, which must only
+    /// ever see an element once it has been resolved.
+    pub fn register_original(&mut self, el: &SvgElement) {
+        if let Some(id) = el.get_attr("id") {
+            let id = eval_attr(&id, self).unwrap_or(id);
+            self.original_map.entry(id).or_insert_with(|| el.clone());
         }
     }
 }
